@@ -33,7 +33,7 @@ LANE = dict(schemes=['ill', 'und', 'srr'], lib='small', lanes=2, chunks=1, maxfi
 
 # design (must pass, every action covered)
 cfg('MC_LibraryListing_pair_q.cfg', **PAIR)
-cfg('MC_LibraryListing_name_q.cfg', **dict(NAME, slib=(0, 2)))
+cfg('MC_LibraryListing_name_q.cfg', **dict(NAME, slib=(0, 2), lib='repl3'))
 cfg('MC_LibraryListing_lane_q.cfg', **LANE)
 cfg('MC_LibraryListing_design_t.cfg', schemes=['ill', 'und', 'srr'], lib='one', lanes=1, chunks=2, maxfiles=4, glob=B2)
 cfg('MC_LibraryListing_name_t.cfg', **dict(NAME, maxfiles=3, lib='repl', verbose=B2, repl=(1, 2, 4), slib=(0, 2), merges=(0, 2),
